@@ -32,15 +32,15 @@ theorem digits_takeWhile (w : List Nat) : Digits (w.takeWhile isDigit) := by
   | cons c w ih =>
     by_cases h : isDigit c = true
     · simp only [List.takeWhile_cons, h, if_true]; exact Digits.cons h ih
-    · simp only [List.takeWhile_cons, h, if_false]; exact digits_nil
+    · simp only [List.takeWhile_cons, h]; exact digits_nil
 
 theorem take_takeWhile (w : List Nat) : w.take (w.takeWhile isDigit).length = w.takeWhile isDigit := by
   induction w with
   | nil => rfl
   | cons c w ih =>
     by_cases h : isDigit c = true
-    · simp [List.takeWhile_cons, h, ih]
-    · simp [List.takeWhile_cons, h]
+    · simp [h, ih]
+    · simp [h]
 
 /-- A run of digits at the head of `ds ++ t` is at most the greedy run, and when it is shorter the next
     character is a digit. -/
@@ -54,7 +54,7 @@ theorem digits_prefix : ∀ (ds t : List Nat), Digits ds →
     | cons c t' =>
       by_cases hc : isDigit c = true
       · exact ⟨c, t', rfl, hc⟩
-      · simp [List.takeWhile_cons, hc] at h
+      · simp [hc] at h
   | d :: ds, t, h => by
     have ih := digits_prefix ds t (Digits.tail h)
     simp only [List.cons_append, List.takeWhile_cons, Digits.head h, if_true, List.length_cons]
